@@ -91,6 +91,19 @@ def ucB (G : MG) (a c b : Nat) : Bool :=
 def noNewUCB (P M : MG) : Bool :=
   M.nodes.all fun a => M.nodes.all fun c => M.nodes.all fun b => !ucB M a c b || ucB P a c b
 
+/-- executable `WF4` -/
+def wf4B (G : MG) : Bool :=
+  (G.dir ++ G.bi ++ G.un ++ G.circ).all fun e => decide (e.1 ∈ G.nodes) && decide (e.2 ∈ G.nodes)
+
+/-- executable `SourceOK` -/
+def srcOkB (M0 : MG) : Bool :=
+  wf4B M0 && M0.un.isEmpty && M0.circ.isEmpty && (M0.dir ++ M0.bi).all fun e => e.1 != e.2
+
+/-- the requests the validator refuses to judge: a PAG or a source graph with an edge to a non-node, a
+    source graph that is not a directed/bidirected graph without self loops (never sent by the harness) -/
+def inputFails (P : MG) (S : Option MG) : List String :=
+  if wf4B P && (match S with | some M0 => srcOkB M0 | none => true) then [] else ["bad-input"]
+
 def firstFails (P M : MG) : List String :=
   structuralFails P M ++
   (if !hasCycle M then [] else ["directed-cycle"]) ++
@@ -104,5 +117,10 @@ def secondFails (M0 M : MG) : List String :=
   (if ancestralB M && M.un.isEmpty then [] else ["not-a-mag"]) ++
   (if maximalB M then [] else ["not-maximal"]) ++
   (if sameNodes M0.nodes M.nodes && sameSepB M0 M then [] else ["not-markov-equivalent"])
+
+/-- everything `c09valid` reports: `P` the PAG, `M` the graph returned by the implementation, `S` the
+    source MAG if one is given -/
+def validFails (P M : MG) (S : Option MG) : List String :=
+  inputFails P S ++ firstFails P M ++ (match S with | some M0 => secondFails M0 M | none => [])
 
 end C09
